@@ -26,11 +26,21 @@ type Region struct {
 	Leaves  []string // sort of the leaf at each cell offset (small regions of known type)
 	Via     []viaTag
 	Elem    bool // the region is one whole element of a slice (s[i])
+	Ghost   string // ghost integer <name> of the object Ref
 }
 
 // containsWrite is the condition under which a recorded write lies inside
 // the region.
 func (r Region) containsWrite(w writeRec) string {
+	if r.Ghost != "" {
+		if w.Kind == "ghost:"+r.Ghost {
+			return eq(w.Ref, r.Ref)
+		}
+		return "false"
+	}
+	if strings.HasPrefix(w.Kind, "ghost:") {
+		return "false"
+	}
 	if r.Map != nil {
 		return "false"
 	}
@@ -84,7 +94,19 @@ func (f *FnEnc) writeObligations(rs []Region, key string) {
 			case "idxrange":
 				alts = append(alts, eq(w.Idx, w.IdxHi))
 			}
-			if w.Kind != "object" {
+			if w.Kind == "map" {
+				for _, r := range rs {
+					if r.Map != nil {
+						alts = append(alts, eq(w.Ref, r.Ref))
+					}
+				}
+			} else if strings.HasPrefix(w.Kind, "ghost:") {
+				for _, r := range rs {
+					if c := r.containsWrite(w); c != "false" {
+						alts = append(alts, c)
+					}
+				}
+			} else if w.Kind != "object" {
 				for _, r := range rs {
 					if c := r.containsWrite(w); c != "false" {
 						alts = append(alts, c)
@@ -168,6 +190,15 @@ func (f *FnEnc) region(se *SpecEnv, m SExpr) Region {
 		}
 		return Region{Ref: x.L[0], IdxLo: x.L[1], IdxHi: "(bvadd " + x.L[1] + " " + x.L[4] + ")", Classes: f.l.classesOf(u.Elem()), Text: text}
 	}
+	if c, ok := m.(SCall); ok && c.Fun == "ghostint" {
+		lit := c.Args[0].(SLit)
+		x := se.eval(c.Args[1], nil)
+		ref := x.L[0]
+		if _, isIface := x.T.Underlying().(*types.Interface); isIface {
+			ref = x.L[1]
+		}
+		return Region{Ref: ref, Ghost: lit.Val, Text: text}
+	}
 	if c, ok := m.(SCall); ok && c.Fun == "held" {
 		a, t := se.addrOf(c.Args[0])
 		return Region{Ref: a.Ref, IdxLo: a.Idx, SubLo: a.plusSub(f.heldOffset(t)).Sub, NCells: 1, SubHi: a.plusSub(f.heldOffset(t) + 1).Sub, Classes: []string{SBool}, Text: text}
@@ -199,6 +230,13 @@ func (f *FnEnc) region(se *SpecEnv, m SExpr) Region {
 // havocRegions makes the cells of the regions arbitrary in st.
 func (f *FnEnc) havocRegions(st *State, rs []Region) {
 	for _, r := range rs {
+		if r.Ghost != "" {
+			k := "map:ghost:" + r.Ghost
+			h := f.lazyHeap(st, k)
+			f.noteWrite(writeRec{Kind: "ghost:" + r.Ghost, Ref: r.Ref})
+			st.heaps[k] = f.c.define("G", "(Array Int (_ BitVec 64))", sto(h, r.Ref, f.c.fresh("hvg", SBV64)))
+			continue
+		}
 		if r.Map != nil {
 			f.havocMapAt(st, r.Map, r.Ref)
 			continue
@@ -255,6 +293,7 @@ func (f *FnEnc) havocRegions(st *State, rs []Region) {
 }
 
 func (f *FnEnc) havocMapAt(st *State, mt *types.Map, ref string) {
+	f.noteWrite(writeRec{Kind: "map", Ref: ref})
 	ks := f.mapKeySort(mt)
 	hk := f.mapHasKey(mt)
 	hh := f.lazyHeap(st, hk)
@@ -268,19 +307,54 @@ func (f *FnEnc) havocMapAt(st *State, mt *types.Map, ref string) {
 	setHeap(st, "map:len", f.c.define("Mlen", f.heapSortOf("map:len"), sto(ln, ref, f.c.fresh("hvlen", SBV64))))
 }
 
+// havocFresh makes the contents of every object allocated by this function
+// (ref >= alloc0) arbitrary and keeps all other objects.
+func (f *FnEnc) havocFresh(st *State) {
+	for _, so := range allClasses {
+		h := f.heap(st, so)
+		nh := f.c.fresh("Hlp"+className(so), heapSort(so))
+		f.c.assume("true", "(forall ((r!q Int)) (! (=> (< r!q "+f.st0.alloc+") (= (select "+nh+" r!q) (select "+h+" r!q))) :pattern ((select "+nh+" r!q))))")
+		setHeap(st, so, nh)
+	}
+	for _, k := range sortedHeapKeys(st.heaps) {
+		if !strings.HasPrefix(k, "map:") {
+			continue
+		}
+		h := st.heaps[k]
+		f.c.n++
+		nh := fmt.Sprintf("Mlp!%d", f.c.n)
+		f.c.raw(fmt.Sprintf("(declare-const %s %s)", nh, f.heapSortOf(k)))
+		f.c.assume("true", "(forall ((r!q Int)) (! (=> (< r!q "+f.st0.alloc+") (= (select "+nh+" r!q) (select "+h+" r!q))) :pattern ((select "+nh+" r!q))))")
+		st.heaps[k] = nh
+	}
+	f.epoch++
+	st.epoch = f.epoch
+}
+
 // havocAll makes every heap arbitrary.
-func (f *FnEnc) havocAll(st *State) {
+func (f *FnEnc) havocAll(st *State) { f.havocAllOpt(st, false) }
+
+// havocAllOpt: with keepGhost the ghost integers survive (a contract that
+// says `modifies *` speaks about program memory; specification-only state
+// changes only where a contract names it).
+func (f *FnEnc) havocAllOpt(st *State, keepGhost bool) {
 	f.noteWrite(writeRec{Kind: "all"})
 	for _, so := range allClasses {
 		setHeap(st, so, f.c.fresh("Hhv"+className(so), heapSort(so)))
 	}
 	for _, k := range sortedHeapKeys(st.heaps) {
 		if strings.HasPrefix(k, "map:") {
+			if keepGhost && strings.HasPrefix(k, "map:ghost:") {
+				continue
+			}
 			delete(st.heaps, k)
 		}
 	}
 	f.epoch++
 	st.epoch = f.epoch
+	if !keepGhost {
+		st.gepoch = f.epoch
+	}
 }
 
 func (f *FnEnc) bumpAlloc(st *State, R string) {
@@ -446,11 +520,18 @@ func (f *FnEnc) evalClause(se *SpecEnv, c Clause) (formula string) {
 
 func (f *FnEnc) havocLoop(fr *Frame, li *loopInfo, ls *LoopSpec, st *State) *State {
 	if li.writes {
-		if ls.HasMod {
+		switch {
+		case ls.HasMod:
 			se := f.specEnvFor(fr, st, "true")
 			rs := f.regions(se, ls.Modifies)
 			f.havocRegions(st, rs)
-		} else {
+		case f.con != nil && f.con.HasMod && !f.con.ModAll && f.entryRegions != nil:
+			// every write of the function is checked (write by write) to
+			// stay inside the modifies clause or to touch objects allocated
+			// by the function; so across the loop only those cells change
+			f.havocRegions(st, *f.entryRegions)
+			f.havocFresh(st)
+		default:
 			f.havocAll(st)
 		}
 		na := f.c.fresh("alloc", SInt)
@@ -547,6 +628,14 @@ func (f *FnEnc) setResult(fr *Frame, in ssa.Value, v Val) {
 	if in == nil {
 		return
 	}
+	if fr == f.top && f.lastCall != "" && len(v.L) > 0 {
+		if f.callResults == nil {
+			f.callResults = map[string]Val{}
+		}
+		rv := v
+		rv.T = in.Type()
+		f.callResults[f.lastCall] = rv
+	}
 	if t, ok := in.Type().(*types.Tuple); ok && t.Len() == 0 {
 		return
 	}
@@ -640,6 +729,10 @@ func (f *FnEnc) callWith(fr *Frame, st *State, R string, in ssa.Value, cc *ssa.C
 
 func (f *FnEnc) nextCall(name string) int {
 	f.callOrd[name]++
+	f.lastCall = fmt.Sprintf("%s#%d", name, f.callOrd[name])
+	if f.eng.traceCalls && f.curFrame == f.top {
+		fmt.Printf("  call %-40s at line %d\n", f.lastCall, f.pos(f.curPos).Line)
+	}
 	return f.callOrd[name]
 }
 
@@ -685,6 +778,25 @@ func (f *FnEnc) closureFromValue(fr *Frame, st *State, v ssa.Value) *closureRec 
 
 // unknownCall is the most general effect: every heap arbitrary, fresh result.
 func (f *FnEnc) unknownCall(fr *Frame, st *State, R string, in ssa.Value, rt types.Type, what string, args []Val, pos token.Pos) {
+	if con := f.eng.contractOf(fr.fn); con != nil && con.HasDynMod && what == "dynamic call" {
+		f.c.trusted["assumed effect of callbacks in "+f.eng.fnKey(fr.fn)+" (dyncall modifies clause)"] = true
+		se := f.specEnvFor(fr, st, R)
+		if fr == f.top {
+			for k, v := range f.params {
+				if fr.byName[k] == nil {
+					se.vars[k] = v
+				}
+			}
+		}
+		f.havocRegions(st, f.regions(se, con.DynMod))
+		f.bumpAlloc(st, R)
+		if in != nil {
+			v := f.freshVal("ret", rt)
+			f.c.assume(R, f.wf(st, v))
+			f.setResult(fr, in, v)
+		}
+		return
+	}
 	f.c.notes["call without contract, heaps havocked: "+what] = true
 	f.havocAll(st)
 	f.bumpAlloc(st, R)
@@ -814,7 +926,7 @@ func (f *FnEnc) applyContract(fr *Frame, st *State, R string, con *Contract, nam
 		switch {
 		case !con.HasMod || con.ModAll:
 			f.c.notes["contract without modifies clause, heaps havocked: "+calleeKey] = true
-			f.havocAll(st)
+			f.havocAllOpt(st, con.HasMod)
 		default:
 			rs := f.regions(mk(pre), con.Modifies)
 			f.havocRegions(st, rs)
